@@ -124,6 +124,8 @@ func (c *c13Conn) NewStream(ctx context.Context) (network.Stream, error) {
 		return c13NewStream(c, a.data, a.hang, ""), nil
 	case <-ctx.Done():
 		return nil, ctx.Err()
+	case <-c.env.quit:
+		return nil, errC13Stream
 	}
 }
 func (c *c13Conn) takeGate() *c13Gate {
@@ -155,6 +157,12 @@ func c13NewStream(c *c13Conn, data []byte, hang bool, proto protocol.ID) *c13Str
 // Read serves the scripted bytes; then EOF, or — for a silent remote — blocks
 // until the read deadline identify set (for ever if it set none)
 func (s *c13Stream) Read(p []byte) (int, error) {
+	s.mu.Lock()
+	d0 := s.deadline
+	s.mu.Unlock()
+	if !d0.IsZero() && !time.Now().Before(d0) {
+		return 0, os.ErrDeadlineExceeded
+	}
 	if s.r.Len() > 0 || !s.hang {
 		return s.r.Read(p)
 	}
@@ -229,6 +237,7 @@ type c13Env struct {
 	chans  []<-chan struct{}  // wait channels seen so far; id = index+1
 	gates  map[int64]*c13Gate // pending identify task: wait channel id -> its gate
 	taskOf map[int64]int64    // wait channel id -> connection index
+	dead   map[int64]*c13Gate // exchanges that are over (failed at once, timed out): a late answer goes nowhere
 	quit   chan struct{}      // closed when the case is over: silent remotes go away
 }
 
@@ -269,9 +278,9 @@ func (e *c13Env) describeAddr(a ma.Multiaddr) []int64 {
 	return []int64{id, c13Class(a), sfx}
 }
 
-func c13NewEnv(np int, kinds []int64, maxProtos, pcap int, timeout time.Duration, conns [][4]int64) *c13Env {
+func c13NewEnv(np int, kinds []int64, maxProtos, pcap, maxu int, timeout time.Duration, conns [][4]int64) *c13Env {
 	c13Keys()
-	e := &c13Env{np: np, gates: map[int64]*c13Gate{}, taskOf: map[int64]int64{}, quit: make(chan struct{})}
+	e := &c13Env{np: np, gates: map[int64]*c13Gate{}, taskOf: map[int64]int64{}, dead: map[int64]*c13Gate{}, quit: make(chan struct{})}
 	e.peers = make([]c13Key, np+1)
 	ne, nr := 0, 0
 	for i := 1; i <= np; i++ {
@@ -283,7 +292,8 @@ func c13NewEnv(np int, kinds []int64, maxProtos, pcap int, timeout time.Duration
 			nr++
 		}
 	}
-	raw, err := pstoremem.NewPeerstore(pstoremem.WithMaxProtocols(maxProtos), pstoremem.WithMaxAddressesPerPeer(pcap))
+	raw, err := pstoremem.NewPeerstore(pstoremem.WithMaxProtocols(maxProtos), pstoremem.WithMaxAddressesPerPeer(pcap),
+		pstoremem.WithMaxAddresses(maxu))
 	if err != nil {
 		panic(err)
 	}
@@ -342,8 +352,12 @@ func (e *c13Env) learn() {
 			id := e.chanID(ent.IdentifyWaitChan)
 			if _, bound := e.taskOf[id]; !bound {
 				if g := c.takeGate(); g != nil {
-					e.gates[id] = g
 					e.taskOf[id] = int64(ci)
+					if c13Closed(ent.IdentifyWaitChan) {
+						e.dead[id] = g // a zero timeout: the exchange failed before it began
+					} else {
+						e.gates[id] = g
+					}
 				}
 			}
 		}
